@@ -384,7 +384,10 @@ type tierCfg struct {
 }
 
 func tierOf(prop, tier string) tierCfg {
-	q := map[string]int{}
+	// quick sizes aim at about half a minute of simulation on 16 cores (the rarest of
+	// the seeded changes in seeded/ needs one to two thousand runs of its check)
+	q := map[string]int{"C01": 4000, "C02": 3000, "C03": 4000, "C04": 1500, "C06": 4000, "C07": 3000, "C08": 3000, "C09": 800,
+		"C10": 4000, "C11": 4000, "C12": 600, "C13": 4000, "C14": 4000, "C15": 3000, "C16": 1000, "C17": 600, "C18": 12000, "C19": 12000, "C20": 2000}
 	base := 400
 	if n, ok := q[prop]; ok {
 		base = n
@@ -395,7 +398,7 @@ func tierOf(prop, tier string) tierCfg {
 		}
 	}
 	if tier == "thorough" {
-		return tierCfg{runs: base * 40, minimise: 180 * time.Second}
+		return tierCfg{runs: base * 8, minimise: 180 * time.Second}
 	}
 	return tierCfg{runs: base, minimise: 45 * time.Second}
 }
